@@ -677,7 +677,11 @@ def op_table():
                         E["Vertex"].NEIGHBOR_CACHING = flag
                     if not any(x is b for x in fw) or not any(x is a for x in bw) or not fl:
                         raise PropertyViolation(f"C11: reading {what}'s result back, a listed pair is missing from neighbors() / find_links")
-                    if not directed and not any(x is a for x in nbf(b, 0)):
+                    try:
+                        sym = directed or any(x is a for x in nbf(b, 0))
+                    except (NotImplementedError, IndexError, AttributeError):
+                        continue            # a pre-existing link of unknown class / with a missing end at b: neighbors() documents the error
+                    if not sym:
                         raise PropertyViolation(f"C11: {what} with an undirected type: the symmetric entry is missing from neighbors()")
         P.L.extend(x for o in allo for x in o.links[len(oldlinks[id(o)]):] if not any(x is y for y in P.L))
         P.U.append(uni)
